@@ -86,5 +86,5 @@ func clen(b []byte) int {
 			return i
 		}
 	}
-	return len(b) + 1
+	return len(b)
 }
